@@ -192,11 +192,19 @@ int ReplaySchedule::pick(int cur, const std::vector<int>& en, size_t step) {
 int DfsSchedule::pick(int cur, const std::vector<int>& en, size_t) {
     // alternatives ordered: current thread first (no preemption), then the others
     if (pos < stack.size()) {
-        Choice& c = stack[pos++];
+        Choice& c = stack[pos];
         int t = c.alts[c.idx];
-        bool cur_en = false; for (int x : en) if (x == cur) cur_en = true;
-        if (cur_en && t != cur) preempts++;
-        return t;
+        bool t_en = false; for (int x : en) if (x == t) t_en = true;
+        if (t_en) {
+            pos++;
+            bool cur_en = false; for (int x : en) if (x == cur) cur_en = true;
+            if (cur_en && t != cur) preempts++;
+            return t;
+        }
+        // the scenario did not repeat the recorded prefix (it is not deterministic between runs): drop the stale suffix
+        // and continue as a fresh path instead of handing the baton to a thread that cannot run
+        diverged = true;
+        stack.resize(pos);
     }
     std::vector<int> alts;
     bool cur_en = false; for (int x : en) if (x == cur) cur_en = true;
